@@ -298,12 +298,121 @@ func runC20(c *core.Ctx) {
 			bounds = append(bounds, fmt.Sprintf("%s: full reachable state space over %d words (%d states, depth %d)", u.name, len(bw), len(seen), maxDepth))
 		}
 	}
+	// 2b. queries interleaved with insertions: a history is a sequence of Insert(w) / PrefixAll(p) / Contains(w)
+	//     operations on one trie, every query answered against the reference set at that moment (a structure that
+	//     remembers answers between operations is only visible this way)
+	{
+		ops := c20IlOps()
+		depth := 4
+		if !c.Quick() {
+			depth = 6
+		}
+		run := c20IlRun
+		describe := func(idx []int) string {
+			parts := make([]string, len(idx))
+			for i, x := range idx {
+				parts[i] = fmt.Sprintf("%c(%q)", ops[x].kind, ops[x].arg)
+			}
+			return strings.Join(parts, " ")
+		}
+		ok := enumTuples(len(ops), depth, func(idx []int) bool {
+			if len(idx) < 2 || ops[idx[len(idx)-1]].kind == 'i' {
+				return true // histories ending in a query
+			}
+			if c.P.Evals&0xfff == 0 && c.Expired() {
+				return false
+			}
+			key := describe(idx)
+			if !c.MineNoDedup("interleaved", key) {
+				return true
+			}
+			cs := core.Case{Kind: "interleaved", Data: c20Ints(idx)}
+			v := c.Run(func() *core.Viol {
+				cl, det := run(idx)
+				if cl == "" {
+					return nil
+				}
+				return &core.Viol{Class: cl, Detail: det + " in " + key, Case: cs, FindText: key}
+			})
+			out := "interleaved-ok"
+			if v != nil {
+				out = v.Class
+			}
+			c.CountNT("interleaved: "+key, out, true)
+			c.P.Traces++
+			return true
+		})
+		if ok {
+			bounds = append(bounds, fmt.Sprintf("interleaved: every history of <=%d operations over %d (6 insertions, 5 prefix queries, 3 membership queries) ending in a query, each query checked when it is made", depth, len(ops)))
+		}
+	}
 	// 3. through the interpreter: top-level definitions recorded in a registered trie
 	if c.Shard == 0 || c.Of == 1 {
 		c20Session(c)
 		bounds = append(bounds, "session: all sequences <=3 of 8 top-level definitions")
 	}
 	c.P.Bound = strings.Join(bounds, "; ")
+}
+
+type c20Op struct {
+	kind byte
+	arg  string
+}
+
+func c20IlOps() []c20Op {
+	var ops []c20Op
+	for _, w := range c20Words([]byte("ab"), 2) {
+		ops = append(ops, c20Op{'i', w})
+	}
+	for _, p := range []string{"", "a", "b", "ab", "aa"} {
+		ops = append(ops, c20Op{'p', p})
+	}
+	for _, w := range []string{"a", "ab", "bb"} {
+		ops = append(ops, c20Op{'c', w})
+	}
+	return ops
+}
+
+func c20IlRun(idx []int) (string, string) {
+	ops := c20IlOps()
+	t := trie.NewTrie()
+	set := map[string]bool{}
+	for step, x := range idx {
+		o := ops[x]
+		switch o.kind {
+		case 'i':
+			t.Insert(o.arg)
+			set[o.arg] = true
+		case 'c':
+			if t.Contains(o.arg) != set[o.arg] {
+				return "interleaved:contains", fmt.Sprintf("step %d: Contains(%q)=%v, reference %v", step, o.arg, t.Contains(o.arg), set[o.arg])
+			}
+		case 'p':
+			var want []string
+			for w := range set {
+				if strings.HasPrefix(w, o.arg) {
+					want = append(want, w)
+				}
+			}
+			sort.Strings(want)
+			l, got := t.PrefixAll(o.arg)
+			if strings.Join(got, "\x00") != strings.Join(want, "\x00") {
+				return "interleaved:prefixall-set", fmt.Sprintf("step %d: PrefixAll(%q)=%q, reference %q", step, o.arg, got, want)
+			}
+			if len(want) > 0 && l != lcp(want) {
+				return "interleaved:prefixall-len", fmt.Sprintf("step %d: PrefixAll(%q) length %d, reference %d for %q", step, o.arg, l, lcp(want), want)
+			}
+		}
+	}
+	return "", ""
+}
+
+func c20Ints(idx []int) string {
+	parts := make([]string, len(idx))
+	for i, x := range idx {
+		parts[i] = fmt.Sprint(x)
+	}
+	return strings.Join(parts, ",")
 }
 
 func popcount(x uint64) int {
@@ -426,6 +535,13 @@ func init() {
 		QuickCap: 100 * time.Second, ThoroughCap: 15 * time.Minute,
 		Run: runC20,
 		Replay: func(c *core.Ctx, cs core.Case) *core.Viol {
+			if cs.Kind == "interleaved" {
+				cl, det := c20IlRun(parseInts(cs.Data))
+				if cl == "" {
+					return nil
+				}
+				return &core.Viol{Class: cl, Detail: det, Case: cs}
+			}
 			if cs.Kind == "session" {
 				cl, det := c20SessionOne(parseInts(cs.Data))
 				if cl == "" {
